@@ -50,7 +50,11 @@ static inline int y_memcmp16(const void* a, const void* b, uint64_t n)
 #undef Y_S
   return 0;
 }
-#ifdef Y_MEMCMP_LOOP
+#if defined(Y_SKELETON_BYTES)
+/* skeleton units: byte-string comparisons are nondeterministic (sound over-approximation of every key content) */
+int nondet_int(void);
+#define Y_MEMCMP(a, b, n) ((void)(a), (void)(b), (void)(n), nondet_int())
+#elif defined(Y_MEMCMP_LOOP)
 static inline int y_memcmp_loop(const void* a, const void* b, uint64_t n)
 {
   const unsigned char* x = (const unsigned char*)a; const unsigned char* y = (const unsigned char*)b;
@@ -199,21 +203,44 @@ unsigned y_ev;
 #ifndef Y_VEC_CAP
 #define Y_VEC_CAP 4
 #endif
+#ifdef Y_SKELETON_VEC
+/* skeleton units: a vector is its size; elements are observed at push time through the hook Y_VEC_PUSH_HOOK_<vector type>(v, x)
+ * and removals through Y_VEC_ERASE_HOOK(v, new_size) (both default to nothing; a unit defines them in its `early` section) */
+#define Y_DECLARE_VEC(V, T) struct V { uint64_t size; };
+#else
 #define Y_DECLARE_VEC(V, T) struct V { T buf[Y_VEC_CAP]; uint64_t size; };
+#endif
+#ifdef Y_SKELETON_VEC
+#define Y_VEC_CLEAR(v) (Y_VEC_ERASE_HOOK((v), 0), (v)->size = 0)
+/* iterators are positions (integers: only end() - n and end() are ever formed) */
+#define Y_VEC_END(v) ((uint64_t)(v)->size)
+#define Y_VEC_PUSH(v, T, x) Y_VEC_PUSH_##T((v), (x))
+#define Y_VEC_ERASE(v, b, e) (Y_VEC_ERASE_HOOK((v), (v)->size - (uint64_t)((e) - (b))), (v)->size -= (uint64_t)((e) - (b)))
+#else
 #define Y_VEC_CLEAR(v) ((v)->size = 0)
 #define Y_VEC_BEGIN(v) (&(v)->buf[0])
 #define Y_VEC_END(v) (&(v)->buf[0] + (v)->size)
 #define Y_VEC_AT(v, i) (&(v)->buf[(i)])
 #define Y_VEC_PUSH(v, T, x) ((v)->buf[(v)->size] = (x), (v)->size++)
 #define Y_VEC_ERASE(v, b, e) ((v)->size -= (uint64_t)((e) - (b)))   /* only erase(end - n, end) occurs */
+#endif
 
 /* std::string: bounded buffer */
 #ifndef Y_STR_CAP
 #define Y_STR_CAP 8
 #endif
+#ifdef Y_SKELETON_BYTES
+typedef struct y_string { uint64_t size; } y_string;     /* skeleton: a string is its length */
+static inline y_string y_string_empty(void) { y_string s; s.size = 0; return s; }
+static inline uint64_t y_string_size(y_string* s) { return s->size; }
+static inline char* y_string_data(y_string* s) { (void)s; return (char*)0; }
+static inline void y_string_append(y_string* s, const char* p, uint64_t n) { (void)p; s->size += n; }
+static inline y_sv y_string_view(y_string* s) { y_sv r; r.data = 0; r.size = s->size; return r; }
+#else
 typedef struct y_string { char buf[Y_STR_CAP]; uint64_t size; } y_string;
 static inline y_string y_string_empty(void) { y_string s; s.size = 0; return s; }
 static inline uint64_t y_string_size(y_string* s) { return s->size; }
 static inline char* y_string_data(y_string* s) { return s->buf; }
 static inline y_sv y_string_view(y_string* s) { y_sv r; r.data = s->buf; r.size = s->size; return r; }
+#endif
 #endif
